@@ -20,8 +20,12 @@ def _fim():
 # ----------------------------------------------------------------------------------------------
 # environment: a fresh topology in a fresh store, deterministic uuids
 # ----------------------------------------------------------------------------------------------
+EPOCH = [0]      # bumped whenever a new environment resets the singleton store
+
+
 class Env:
     def __init__(self, flavour, seed=0):
+        EPOCH[0] += 1
         f = _fim()
         from fim.graph.networkx_property_graph import NetworkXGraphImporter
         NetworkXGraphImporter().delete_all_graphs()
@@ -33,6 +37,20 @@ class Env:
 
     def close(self):
         uuid.uuid4 = _orig_uuid4
+
+    # ---- cheap save / restore of the whole store (removal operations never allocate ids) ----
+    def _store(self):
+        from fim.graph.networkx_property_graph import NetworkXGraphStorage
+        return NetworkXGraphStorage.storage_instance
+
+    def save(self):
+        st = self._store()
+        self._saved = (st.graphs.copy(), st.start_id)
+
+    def restore(self):
+        st = self._store()
+        st.graphs = self._saved[0].copy()
+        st.start_id = self._saved[1]
 
     # ---- look-ups through the public API ----
     def node(self, name):
